@@ -645,7 +645,10 @@ def nInsert (st : St) (path : List Nat) (s : Spec) (index : Option Int) (viaStr 
     if !isContainer c then (st, .badOp) else
     if viaStr then
       if (idxOf index c.kids.length).isNone then (st, .err .indexSize) else  -- cssrule.py:243-248 precedes the parse
-      match parseCand st.raising [] st.next s with                           -- temp sheet without namespaces, :251-260
+      -- temp sheet that is given the namespaces of `self.parentStyleSheet` (`cssrule.py:254-261`, since cfe1126); the
+      -- container is in the sheet's tree, where the getter answers the sheet at every depth
+      -- (`parentStyleSheet_all_depths`)
+      match parseCand st.raising (nsDict st.rules) st.next s with
       | .error e => (st, .err e)
       | .ok none => (st, logError st.raising .syntaxErr)
       | .ok (some i) =>
